@@ -1,9 +1,74 @@
-(* C14 -- read-only operations are pure, and derived values are never stale. *)
-From PsdV Require Import Base.Prelude Edit.Model Edit.Corr Edit.Inv Edit.Cache.
+(* C14 -- read-only operations are pure, and derived values are never stale.
+
+   Model: Edit/Model.v ([ocache] = the _bbox of groups and documents; [fresh_bbox] = Group.extract_bbox
+   computed now, following the stored _parent pointers for visibility as the code does).
+   Coherent s (Edit/Cache.v): every filled cache equals the fresh value. *)
+From PsdV Require Import Base.Prelude Edit.Model Edit.Corr Edit.Inv Edit.Cache Edit.Forest Edit.ProofsInv Edit.ProofsCache.
 Open Scope Z_scope.
 
-(* F-C14-1: no structure edit invalidates a cached bbox: new group, read its (empty) bbox,
-   append a layer: the cache keeps (0,0,0,0) *)
+(* ---------------------------------------------------------------- read-only operations are pure *)
+(* bbox / size / repr / descendants / find / is_visible change nothing but bbox caches: structure, pointers,
+   flags, rectangles, clip lists, dirty flag and allocation stay as they were -- for every state, reachable or
+   not, and every code variant.  (What a later save() writes is a function of exactly these fields.) *)
+Theorem observers_pure : forall s o, is_observer o = true -> same_but_caches s (fst (step s o)).
+Proof. exact observers_pure_l. Qed.
+Print Assumptions observers_pure.
+
+(* a fresh bounding box never reads a cache: the answer does not depend on what was read before *)
+Theorem fresh_ignores_caches : forall s s' g, same_but_caches s s' -> fresh_bbox s' g = fresh_bbox s g.
+Proof. exact fresh_nocache. Qed.
+Print Assumptions fresh_ignores_caches.
+
+Theorem observers_commute_with_fresh : forall s o g, is_observer o = true ->
+  fresh_bbox (fst (step s o)) g = fresh_bbox s g.
+Proof. intros s o g Ho. apply fresh_nocache, observers_pure_l, Ho. Qed.
+Print Assumptions observers_commute_with_fresh.
+
+(* read-only operations keep every cache coherent (they only store fresh values) *)
+Theorem observers_keep_coherent : forall s o, is_observer o = true ->
+  Forall (fun x => 0 <= x < next s) (op_ids o) -> Coherent s -> Coherent (fst (step s o)).
+Proof. exact observers_coherent_l. Qed.
+Print Assumptions observers_keep_coherent.
+
+(* on a coherent state the answer of bbox IS the fresh value (an empty document answers its viewbox) *)
+Theorem coherent_bbox_answer : forall s x v,
+  Coherent s -> 0 <= x < next s -> is_container s x = true -> corrupt s = false ->
+  snd (step s (ObsBbox x)) = Done v ->
+  exists b, fresh_bbox s x = Some b /\
+            v = box_list (if (kind s x =? KDoc) && box_eqb b box0 then orect (objs s x) else b).
+Proof. exact obs_bbox_answer. Qed.
+Print Assumptions coherent_bbox_answer.
+
+Example coherent_scene1 :
+  let s := run (empty_state_v (mkCfg true true true true true)) (init1 ++ [ObsBbox 0; ObsBbox 1; ObsRepr 2]) in
+  Coherent s /\ ocache (objs s 1) = Some (1, 0, 6, 3).
+Proof. split; [apply coherentb_iff; vm_compute; reflexivity | vm_compute; reflexivity]. Qed.
+
+(* ---------------------------------------------------------------- setters *)
+(* layer.left = v: every cache that is still filled afterwards and whose object does not have the moved
+   layer below it equals a fresh computation.  setter_keeps_coherent_partial: the complementary half --
+   "the caches of all objects above the layer were dropped", which needs the reachability of every
+   lister through the stored _parent chain (true under Inv on the repaired variant a55dbce, false
+   for documents before it, see document_cache_stale_refuted) -- is not proved here; it is checked on
+   the implementation after every step by the staleness oracle of harness/vh/c14.py. *)
+Theorem setter_keeps_coherent_partial : forall s x v w,
+  Coherent s -> snd (step s (SetLeft x v)) = Done w ->
+  forall j b, 0 <= j < next s -> ocache (objs (fst (step s (SetLeft x v))) j) = Some b ->
+              ~ In x (ids_l (kids_of s j)) -> fresh_bbox (fst (step s (SetLeft x v))) j = Some b.
+Proof.
+  intros s x v w C HD j b Hj Hc Hx. unfold step in *. destruct (corrupt s); [discriminate|].
+  cbn [needs_container needs_layer] in *. unfold do_set_left in *.
+  destruct (kind s x =? KPixel); cbn [negb] in *; [|discriminate].
+  pose proof (invalidate_oc s x) as O. destruct (invalidate s x) as [s1 [|]]; cbn [fst snd] in *; [|discriminate].
+  destruct (orect (objs s x)) as [[[l t] r] bt]. cbn [fst] in *.
+  apply (move_keeps_coherent_off_path s x _ s1 C O j b Hj Hc Hx).
+Qed.
+Print Assumptions setter_keeps_coherent_partial.
+
+(* ---------------------------------------------------------------- what the faithful model refutes *)
+(* variant cfg0 = the pinned tree; each witness is replayed on the real code by harness/vh/c14.py *)
+
+(* F-C14-1 (fixed by a55dbce): no structure edit invalidates a cached bbox *)
 Theorem structure_edit_stale_refuted :
   exists s o, Inv s /\ Coherent s /\ snd (step s o) = Done [] /\ ~ Coherent (fst (step s o)).
 Proof.
@@ -15,7 +80,7 @@ Proof.
 Qed.
 Print Assumptions structure_edit_stale_refuted.
 
-(* F-C14-2: _invalidate_bbox stops below the document: the document's cache survives every setter *)
+(* F-C14-2 (fixed by a55dbce): the document's cache survived every setter *)
 Theorem document_cache_stale_refuted :
   exists s o, Inv s /\ Coherent s /\ snd (step s o) = Done [] /\ ~ Coherent (fst (step s o)).
 Proof.
@@ -27,8 +92,7 @@ Proof.
 Qed.
 Print Assumptions document_cache_stale_refuted.
 
-(* F-C14-3: hiding a group invalidates the caches above it, not those of the groups inside it,
-   whose members are no longer visible *)
+(* F-C14-3 (fixed by a55dbce): hiding a group left the caches of the groups inside it *)
 Theorem group_visibility_stale_refuted :
   exists s o, Inv s /\ Coherent s /\ snd (step s o) = Done [] /\ ~ Coherent (fst (step s o)).
 Proof.
@@ -39,3 +103,25 @@ Proof.
   intro H. apply coherentb_iff in H. vm_compute in H. discriminate.
 Qed.
 Print Assumptions group_visibility_stale_refuted.
+
+(* the same three histories on the repaired variant end coherent *)
+Example repaired_variant_coherent :
+  let c := mkCfg true true true true true in
+  Coherent (run (empty_state_v c) (init4 ++ [NewGroup (Some 0); ObsBbox 4; NewPixel (Some 0) 2 2 3 3; Append 4 5]))
+  /\ Coherent (run (empty_state_v c) (init4 ++ [ObsBbox 0; SetLeft 1 5]))
+  /\ Coherent (run (empty_state_v c) (init1 ++ [ObsBbox 2; SetVisible 1 false])).
+Proof. repeat split; apply coherentb_iff; vm_compute; reflexivity. Qed.
+
+(* F-C14-5 (open, every variant): a removed group keeps its _parent; its cache depends on the old parent's
+   visibility and no invalidation walk reaches it *)
+Theorem stale_parent_chain_refuted : forall c : cfg,
+  exists s o, Inv s /\ Coherent s /\ snd (step s o) = Done [] /\ ~ Coherent (fst (step s o)).
+Proof.
+  intro c. exists (run (empty_state_v c) (init1 ++ [Remove 1 2; ObsBbox 2])), (SetVisible 1 false).
+  destruct c as [[] [] [] [] []];
+    (split; [apply Invb_iff; vm_compute; reflexivity|];
+     split; [apply coherentb_iff; vm_compute; reflexivity|];
+     split; [vm_compute; reflexivity|];
+     intro H; apply coherentb_iff in H; vm_compute in H; discriminate).
+Qed.
+Print Assumptions stale_parent_chain_refuted.
